@@ -83,10 +83,11 @@ def _job(job):
     out = []
     for hid, h in hists:
         d = lib.workdir("sys_")
-        hs, model_keys, evs = [], [], []
+        hs, model_keys, evs, cs, cmodel = [], [], [], [], []
         try:
             for e in h:
-                ev = dict(op=e["op"], c=e.get("c", "-"), fl=list(e.get("fl", [])), i=int(e.get("i", 0)), f=e.get("f", "-"), p=e.get("p", "-"), how="-", res="ok", key=["-", []], dig=[], ref=[])
+                ev = dict(op=e["op"], c=e.get("c", "-"), fl=list(e.get("fl", [])), i=int(e.get("i", 0)), f=e.get("f", "-"), p=e.get("p", "-"), how="-", res="ok", key=["-", []], dig=[], ref=[],
+                          j=int(e.get("j", 0)), d=e.get("d", "-"), k=int(e.get("k", 0)), mkeys=[])
                 try:
                     if e["op"] == "request":
                         obs.clear()
@@ -113,7 +114,26 @@ def _job(job):
                         ds = MazeDataset.read(os.path.join(d, f"user_{e['p']}.zanj"))
                         hs.append(ds)
                         model_keys.append(obs["saved_" + e["p"]])
-                    if e["op"] != "save":
+                    elif e["op"] in ("collect", "collgen", "collrt"):
+                        from maze_dataset.dataset.collected_dataset import MazeDatasetCollection, MazeDatasetCollectionConfig
+
+                        if e["op"] == "collect":
+                            mem = [hs[e["i"] - 1], hs[e["j"] - 1]]
+                            coll = MazeDatasetCollection(MazeDatasetCollectionConfig(name="coll", maze_dataset_configs=[m_.cfg for m_ in mem]), mem)
+                            ckeys = [model_keys[e["i"] - 1], model_keys[e["j"] - 1]]
+                        elif e["op"] == "collgen":
+                            coll = MazeDatasetCollection.generate(MazeDatasetCollectionConfig(name="cg", maze_dataset_configs=[mk(e["c"], []), mk(e["d"], [])]), verbose=False)
+                            ckeys = [(e["c"], []), (e["d"], [])]
+                        else:
+                            coll = MazeDatasetCollection.load(cs[e["k"] - 1].serialize())
+                            ckeys = cmodel[e["k"] - 1]
+                        cs.append(coll)
+                        cmodel.append(ckeys)
+                        ev["mkeys"] = [key(m_) for m_ in coll.maze_datasets]
+                        # the flattened view, item by item through __getitem__
+                        ev["dig"] = _digests(type("L", (), {"mazes": [coll[q] for q in range(len(coll))]})())
+                        ev["ref"] = [x for (c_, fl_) in ckeys for x in ref(c_, fl_)]
+                    if e["op"] not in ("save", "collect", "collgen", "collrt"):
                         ev["key"] = key(ds)
                         ev["dig"] = _digests(ds)
                         ev["ref"] = ref(model_keys[-1][0], model_keys[-1][1])
@@ -131,10 +151,12 @@ def _job(job):
 
 
 def synth():
-    ev = lambda **k: dict(dict(op="request", c="a", fl=[], i=0, f="-", p="-", how="cold", res="ok", key=["a", []], dig=["d1", "d2"], ref=["d1", "d2"]), **k)  # noqa: E731
+    ev = lambda **k: dict(dict(op="request", c="a", fl=[], i=0, f="-", p="-", how="cold", res="ok", key=["a", []], dig=["d1", "d2"], ref=["d1", "d2"], j=0, d="-", k=0, mkeys=[]), **k)  # noqa: E731
     return dict(events=[ev(), ev(how="warm"), ev(op="filter", c="-", i=1, f="p", how="-", key=["a", ["p"]], dig=["d2"], ref=["d2"]),
                         ev(op="save", c="-", i=3, p="x", how="-", key=["-", []], dig=[], ref=[]), ev(op="read", c="-", p="x", how="-", key=["a", ["p"]], dig=["d2"], ref=["d2"]),
-                        ev(fl=["p"], key=["a", ["p"]], dig=["d2"], ref=["d2"])])
+                        ev(fl=["p"], key=["a", ["p"]], dig=["d2"], ref=["d2"]),
+                        ev(op="collect", c="-", i=1, j=3, how="-", key=["-", []], mkeys=[["a", []], ["a", ["p"]]], dig=["d1", "d2", "d2"], ref=["d1", "d2", "d2"]),
+                        ev(op="collrt", c="-", k=1, how="-", key=["-", []], mkeys=[["a", []], ["a", ["p"]]], dig=["d1", "d2", "d2"], ref=["d1", "d2", "d2"])])
 
 
 def canaries():
@@ -159,12 +181,18 @@ def canaries():
     t = copy.deepcopy(synth())
     t["events"] = [t["events"][4]]
     c.append((t, "M:operation_not_enabled_in_model"))
+    t = synth()
+    t["events"][6]["mkeys"] = [["a", ["p"]], ["a", []]]
+    c.append((t, "M:collection_is_not_the_models_collection"))
+    t = synth()
+    t["events"][7]["dig"] = ["d1", "d2"]
+    c.append((t, "M:collection_is_not_the_models_collection"))
     return c
 
 
 def run(chk, thorough):
-    r = lib.tlc_design("MazeSystem", "MazeSystem_small.cfg", expect_actions=["Request", "Filter", "Save", "Read"], tag="ms", timeout=3000)
-    chk.add_model("MazeSystem/small", r, "composition config -> cache -> generate -> filters -> save/read: 2 base configs, 2 filters, <= 5 operations, every interleaving")
+    r = lib.tlc_design("MazeSystem", "MazeSystem_small.cfg", expect_actions=["Request", "Filter", "Save", "Read", "Collect", "CollGenerate", "CollRoundTrip"], tag="ms", timeout=3000)
+    chk.add_model("MazeSystem/small", r, "composition config -> cache -> generate -> filters -> save/read -> collections: 2 base configs, 2 filters, <= 5 operations, every interleaving")
     lib.tlc_expect_violation("MazeSystem", "MazeSystem_badkey.cfg", "NoMismatch", tag="ms1")
     h3, r3 = emit("SysEmit_3.cfg")
     chk.add_model("SysEmit/3", r3, "all three-operation histories emitted")
